@@ -44,8 +44,38 @@ func (b *Batch) Build() (string, error) {
 	return m.Build(".", b.bin)
 }
 
-// Run executes the jobs in one process and returns the results in order.
+// Run executes the jobs and returns the results in order. If the process dies (fatal error, stack
+// overflow, os.Exit) the job it was rendering gets a Result with Panic set and the run resumes after it.
 func (b *Batch) Run(jobs []rt.Job, env ...string) ([]rt.Result, error) {
+	var res []rt.Result
+	crashes := 0
+	for len(res) < len(jobs) {
+		part, stderr, err := b.runOnce(jobs[len(res):], env)
+		res = append(res, part...)
+		if len(res) == len(jobs) {
+			break
+		}
+		if err == nil {
+			return res, fmt.Errorf("batch run: %d results for %d jobs: %s", len(res), len(jobs), stderr)
+		}
+		j := jobs[len(res)]
+		msg := stderr
+		if i := strings.Index(msg, "\n\n"); i > 0 {
+			msg = msg[:i]
+		}
+		if len(msg) > 400 {
+			msg = msg[:400]
+		}
+		res = append(res, rt.Result{T: j.T, V: j.V, Panic: "process crashed: " + msg})
+		crashes++
+		if crashes > 200 {
+			return res, fmt.Errorf("batch run: more than 200 crashes")
+		}
+	}
+	return res, nil
+}
+
+func (b *Batch) runOnce(jobs []rt.Job, env []string) ([]rt.Result, string, error) {
 	in, _ := json.Marshal(jobs)
 	cmd := exec.Command(b.bin)
 	cmd.Stdin = bytes.NewReader(in)
@@ -53,23 +83,17 @@ func (b *Batch) Run(jobs []rt.Job, env ...string) ([]rt.Result, error) {
 	var stderr bytes.Buffer
 	cmd.Stderr = &stderr
 	out, err := cmd.Output()
-	if err != nil {
-		return nil, fmt.Errorf("batch run: %v: %s", err, stderr.String())
-	}
 	var res []rt.Result
 	sc := bufio.NewScanner(bytes.NewReader(out))
 	sc.Buffer(make([]byte, 1<<20), 1<<26)
 	for sc.Scan() {
 		var r rt.Result
-		if err := json.Unmarshal(sc.Bytes(), &r); err != nil {
-			return nil, err
+		if jerr := json.Unmarshal(sc.Bytes(), &r); jerr != nil {
+			break // a truncated last line
 		}
 		res = append(res, r)
 	}
-	if len(res) != len(jobs) {
-		return res, fmt.Errorf("batch run: %d results for %d jobs: %s", len(res), len(jobs), stderr.String())
-	}
-	return res, nil
+	return res, stderr.String(), err
 }
 
 // Remove deletes the batch directory.
